@@ -86,6 +86,8 @@ type evaluator struct {
 	// visit, when set, sees every call instruction the walker passes (in order); library calls whose
 	// result is not used are then walked as statements, so that their effects are seen too
 	visit func(fr *evalFrame, call *ssa.Call)
+	// onMapUpdate, when set, is told every m[k] = v the walk passes (key and value as evaluated there)
+	onMapUpdate func(fr *evalFrame, mu *ssa.MapUpdate, k, v interface{}, ok bool)
 	// counted, when positive, lets inlined helpers that contain one loop with closed-form carried values be
 	// read as tables over the iteration number (runCounted), with this iteration budget
 	counted int
@@ -1066,6 +1068,12 @@ func (ev *evaluator) runFrame(fr *evalFrame, start *ssa.BasicBlock, stop func(b 
 							}
 						}
 					}
+				}
+			case *ssa.MapUpdate:
+				if ev.onMapUpdate != nil {
+					k, ok1 := ev.eval(fr, x.Key, 0)
+					v, ok2 := ev.eval(fr, x.Value, 0)
+					ev.onMapUpdate(fr, x, k, v, ok1 && ok2)
 				}
 			case *ssa.Store:
 				if fa, isField := x.Addr.(*ssa.FieldAddr); isField {
